@@ -238,7 +238,7 @@ def apply_real(R, op, rng, hook=None):
 
 UNMODELLED = ["make_group", "make_group", "bin_average", "interpolate", "convolve", "smooth", "numpy_ufunc", "numpy_func", "concatenate", "split_concat", "to_tsgroup_to_tsd",
               "tsgroup_restrict", "tsgroup_getby", "merge_group", "shift", "jitter", "resample", "shuffle", "perievent", "slice_index", "mask_index",
-              "tsdframe_cols", "find_support", "ep_split", "in_interval", "trial_count", "frame_bin_average"]
+              "tsdframe_cols", "find_support", "ep_split", "in_interval", "trial_count", "frame_bin_average", "raw_support", "raw_support"]
 
 
 def apply_unmodelled(R, name, rng):
@@ -252,6 +252,24 @@ def apply_unmodelled(R, name, rng):
     ep = rng.choice(eps) if eps else x.time_support
     xd = x if isinstance(x, nap.Tsd) else nap.Tsd(np.asarray(x.t), np.arange(len(x), dtype=float), time_support=x.time_support)
     b = (rng.choice([1, 2, 3]) * 2 * U2) / 1e9
+    if name == "raw_support":
+        # a support given as RAW start/end arrays (overlapping, touching, chained so that a merged end meets the next start):
+        # the constructor must normalise it before it reaches a series
+        import warnings as _w
+        lo = int(round(float(x.t[0]) * 1e9)) // U2
+        pts = sorted(rng.sample(range(lo - 2, lo + 14), rng.choice([4, 5, 6])))
+        k = rng.choice([3, 4])
+        st = [pts[0]]
+        en = []
+        for i in range(k):
+            e = st[-1] + rng.choice([1, 2, 3])
+            en.append(e)
+            st.append(rng.choice([e - 1, e - 1, e, e, e + 1]) if e - 1 > st[-1] else e)
+        st = st[:k]
+        with _w.catch_warnings():
+            _w.simplefilter("ignore")
+            raw = nap.IntervalSet(start=np.array(st) * U2 / 1e9, end=np.array(en) * U2 / 1e9)
+            return [raw, x.restrict(raw), nap.Ts(np.asarray(x.t), time_support=raw), xd.restrict(raw).count(b)]
     if name == "bin_average":
         return [xd.bin_average(b, ep)]
     if name == "frame_bin_average":
@@ -306,6 +324,18 @@ def apply_unmodelled(R, name, rng):
         if others:
             h = rng.choice(others)
             outs += [nap.TsGroup.merge_group(g, h), nap.TsGroup.merge_group(h, g, reset_index=True, ignore_metadata=True)]
+        # groups with DIFFERENT supports: every combination of the flags (members must end up on the union support)
+        diff = [h for h in groups if h is not g and not np.array_equal(h.time_support.values, g.time_support.values)]
+        if diff:
+            h = rng.choice(diff)
+            disjoint = not (set(h.keys()) & set(g.keys()))
+            for ri in (False, True):
+                if not ri and not disjoint:
+                    continue
+                for im in (False, True):
+                    if not im and list(g.metadata_columns) != list(h.metadata_columns):
+                        continue
+                    outs.append(nap.TsGroup.merge_group(g, h, reset_index=ri, reset_time_support=True, ignore_metadata=im))
         return outs
     if name in ("shift", "jitter", "resample", "shuffle"):
         one = nap.IntervalSet(x.time_support.start[0], x.time_support.end[-1])
